@@ -1,11 +1,20 @@
+//! C30 monitor: the block producer advances the DA height to the largest
+//! fitting prefix. Drives the real `fuel_core_producer::Producer` with
+//! harness-implemented ports.
+
 use vcommon::*;
+
+mod c30;
 
 fn main() {
     let args = Args::parse();
     install_quiet_panic_hook();
     let report = Report::new(&args.property);
     match args.property.as_str() {
-        other => report.inconclusive(format!("property {other} not implemented in this monitor")),
+        "C30" => c30::run(&args, &report),
+        other => {
+            report.inconclusive(format!("property {other} not implemented in this monitor"));
+            report.finish(&args, "exploration", "", false, &[]);
+        }
     }
-    report.finish(&args, "exploration", "", false, &[]);
 }
